@@ -79,8 +79,11 @@ Definition tb_forward (s : tb) (p : pkt) : option (tb * list tout) :=
 (* after the debit: `if self.peak: yield env.timeout(packet.size * 8.0 / self.peak)`, then forward *)
 Definition tb_after_debit (c : tbcfg) (s : tb) (p : pkt) : option (tb * list tout) :=
   match peak_on c with
-  | Some k => Some ({| tnow := tnow s; tq := tq s; tstarted := tstarted s; level := level s; utime := utime s;
-                       phase := PPeak p (Qred (tnow s + spacing k (sz p))); nrecv := nrecv s; nsent := nsent s |}, [])
+  | Some k =>
+      (* env.timeout(d) raises ValueError for d < 0 (negative size or peak): not an admissible step *)
+      if Qlt_le_dec (spacing k (sz p)) 0 then None else
+      Some ({| tnow := tnow s; tq := tq s; tstarted := tstarted s; level := level s; utime := utime s;
+               phase := PPeak p (Qred (tnow s + spacing k (sz p))); nrecv := nrecv s; nsent := nsent s |}, [])
   | None => tb_forward s p
   end.
 
